@@ -971,6 +971,11 @@ class Interp:
             r = self.ev(c, env)
             if isinstance(op, (ast.Lt, ast.LtE, ast.Gt, ast.GtE)) and l.is_numlike and r.is_numlike:
                 self.agree(l, r, e, "comparison")
+            if isinstance(op, (ast.Lt, ast.LtE, ast.Gt, ast.GtE, ast.Eq, ast.NotEq)) and l.is_numlike and r.is_numlike:
+                # a dimensioned quantity against an absolute literal: the test changes with the unit of the features
+                for d_, c_ in ((l, r), (r, l)):
+                    if not d_.wild and not d_.is_unk and d_.k == "num" and d_.u != ZERO and c_.wild and c_.cval not in (None, 0, 0.0) and isinstance(c_.cval, (int, float)) and abs(c_.cval) != float("inf"):
+                        self.violation("DIM.ABS", e, f"`{src(e)[:60]}` compares a quantity of dimension {fmt(d_.copy(sh=None, s=0))} with the absolute constant {c_.cval:g}: the outcome changes when the features are expressed in another unit, so training is not equivariant under rescaling")
             if r.is_numlike and sh is not None and r.sh is not None:
                 sh, _ = bshape(sh, r.sh, e)
             elif r.is_numlike and r.sh is not None and sh is None and not l.is_numlike:
